@@ -3,6 +3,7 @@ pub mod cfbw;
 pub mod driver;
 pub mod report;
 pub mod rng;
+pub mod xlsw;
 
 use std::panic::{catch_unwind, AssertUnwindSafe};
 
